@@ -9,11 +9,11 @@ From Acts.Proofs Require Import EngineBasics TimeoutInv C02Core C02Ops.
 Lemma never_early ns c0 ops t on now start limit :
   In (EFire t on now start limit) (trace (run ns c0 ops)) -> (limit <= now - start)%Z.
 Proof.
-  intros Hin. destruct (run_J ns c0 ops) as ((_ & _ & _ & (HF & _)) & _).
+  intros Hin. destruct (run_J ns c0 ops) as ((_ & _ & _ & (HF & _) & _) & _).
   rewrite forallb_forall in HF. specialize (HF _ Hin). simpl in HF. now apply Z.leb_le.
 Qed.
 Lemma at_most_once ns c0 ops : NoDup (fires (trace (run ns c0 ops))).
-Proof. destruct (run_J ns c0 ops) as ((_ & _ & _ & (_ & HN & _)) & _). exact HN. Qed.
+Proof. destruct (run_J ns c0 ops) as ((_ & _ & _ & (_ & HN & _) & _) & _). exact HN. Qed.
 
 (* ---- one tick ---- *)
 (* what a tick leaves alone: states, start times, registered rules, the clock; flags only grow *)
